@@ -97,7 +97,7 @@ type c07Cell struct {
 type c07Table struct {
 	hasHeader bool
 	header    []string
-	rows      [][]c07Cell // nil row = separator
+	rows      [][]c07Cell         // nil row = separator
 	skip      map[int]interface{} // column -> property value (absent = unset)
 	desc      string
 }
